@@ -65,6 +65,12 @@ let handle (toks : string list) : string =
         else EHash (Some (n_of_string (String.sub e 1 (String.length e - 1))))) (String.split_on_char ',' es) in
     (match Model.serve (n_of_string lim) N0 N0 N0 elems with
      | SErr -> "err" | SOk (c, b, l) -> "ok " ^ dec c ^ " " ^ dec b ^ " " ^ dec l)
+  | ["deliver"; pend; ms] ->
+    (* pend = "-" (no request in flight) or the number of requested headers; ms = string of 0/1 flags or "-" *)
+    let pending = if pend = "-" then None else Some (nat_of_int (int_of_string pend)) in
+    let flags = if ms = "-" then [] else List.init (String.length ms) (fun i -> ms.[i] = '1') in
+    let (a, c) = deliver_rule pending flags in
+    dec a ^ " " ^ (match c with DlvOk -> "ok" | DlvNoFetch -> "nofetch" | DlvStale -> "stale" | DlvPartial -> "partial")
   | ["headers"; a; av] -> dec (headers_served (n_of_string a) (n_of_string av))
   | ["bufsize"; f] -> dec (frame_buf_size (n_of_string f))
   | ["declen"; h] -> (match snappy_declen (bytes_of_hex h) with Some n -> "ok " ^ dec n | None -> "err")
